@@ -190,13 +190,15 @@ class Table(Selectable):
         if self._schema is not None:
             table_sql = "{schema}.{table}".format(schema=self._schema.get_sql(ctx), table=table_sql)
 
+        # the temporal criterion is an operand of the clause: whatever alias it carries defines no name here
+        criterion_ctx = ctx.copy(with_alias=False)
         if self._for:
             table_sql = "{table} FOR {criterion}".format(
-                table=table_sql, criterion=self._for.get_sql(ctx)
+                table=table_sql, criterion=self._for.get_sql(criterion_ctx)
             )
         elif self._for_portion:
             table_sql = "{table} FOR PORTION OF {criterion}".format(
-                table=table_sql, criterion=self._for_portion.get_sql(ctx)
+                table=table_sql, criterion=self._for_portion.get_sql(criterion_ctx)
             )
 
         return format_alias_sql(table_sql, self.alias, ctx)
